@@ -33,7 +33,8 @@ def gen_program(rng, n):
     for _ in range(n):
         k = rng.choice(["write", "write", "append", "read", "rplus", "xcreate", "remove", "rename", "replace", "mkdir",
                         "rmdir", "listdir", "stat", "exists", "utime", "oswrite", "copyfile", "touch", "walk", "makedirs",
-                        "truncate", "seekwrite", "unlink_open", "readinto_big", "textio", "wplus", "link", "getsize"])
+                        "truncate", "seekwrite", "unlink_open", "readinto_big", "textio", "wplus", "link", "getsize",
+                        "symlink", "symlink", "symlink_abs", "readlink", "lstat", "realpath", "utime_nofollow", "scan"])
         a, b = rng.choice(NAMES), rng.choice(NAMES)
         prog.append((k, a, b, rng.randint(0, 20000), rng.randint(0, 255)))
     return prog
@@ -95,6 +96,37 @@ def run_program(root, prog):
                 return os.replace(pa, pb)
             if k == "link":
                 return os.link(pa, pb)
+            if k == "symlink":
+                # a relative link text (relative to the directory holding the link), possibly dangling
+                return os.symlink(os.path.relpath(pb, os.path.dirname(pa)), pa)
+            if k == "symlink_abs":
+                return os.symlink(pb, pa)
+            if k == "readlink":
+                t = os.readlink(pa)
+                return os.path.relpath(t, root) if t.startswith("/") else t
+            if k == "lstat":
+                st = os.lstat(pa)
+                import stat as S
+                return (S.S_ISDIR(st.st_mode), S.S_ISREG(st.st_mode), S.S_ISLNK(st.st_mode),
+                        st.st_size if S.S_ISREG(st.st_mode) else -1)
+            if k == "realpath":
+                return os.path.relpath(os.path.realpath(pa), os.path.realpath(root))
+            if k == "utime_nofollow":
+                os.utime(pa, (1000 + n, 2000 + n), follow_symlinks=False)
+                st = os.lstat(pa)
+                return (int(st.st_atime), int(st.st_mtime))
+            if k == "scan":
+                d = pa if os.path.isdir(pa) else root
+                def q(fn):
+                    try:
+                        return fn()
+                    except OSError as ex:
+                        return "errno%d" % ex.errno
+                with os.scandir(d) as it:
+                    # (per entry, so that the listing order - unspecified on the host - does not decide which
+                    # entry's error surfaces first)
+                    return sorted((e.name, q(e.is_dir), q(e.is_file), e.is_symlink(), e.is_dir(follow_symlinks=False),
+                                   e.is_file(follow_symlinks=False)) for e in it)
             if k == "mkdir":
                 return os.mkdir(pa)
             if k == "rmdir":
@@ -173,21 +205,35 @@ def tree(root):
         rel = os.path.relpath(p, root)
         out.append((rel, "d", 0, b""))
         for f in sorted(files):
-            with open(os.path.join(p, f), "rb") as fh:
+            fp = os.path.join(p, f)
+            if os.path.islink(fp):
+                t = os.readlink(fp)
+                out.append((os.path.join(rel, f), "l", 0, (os.path.relpath(t, root) if t.startswith("/") else t).encode()))
+                continue
+            with open(fp, "rb") as fh:
                 d = fh.read()
             out.append((os.path.join(rel, f), "f", len(d), d))
+        for dn in dirs:
+            fp = os.path.join(p, dn)
+            if os.path.islink(fp):
+                t = os.readlink(fp)
+                out.append((os.path.join(rel, dn), "l", 0, (os.path.relpath(t, root) if t.startswith("/") else t).encode()))
     return out
 
 
 def one(seed, length):
     rng = random.Random(seed)
     prog = gen_program(rng, length)
-    host = tempfile.mkdtemp(prefix="osu_fid_")
+    top = tempfile.mkdtemp(prefix="osu_fid_")
+    # (two levels down: a relative link text such as "../e" moved to another directory may name a place above the
+    # program's root - that must stay inside this program's own scratch directory)
+    host = os.path.join(top, "p", "q")
+    os.makedirs(host)
     try:
         t_host = run_program(host, prog)
         tree_host = tree(host)
     finally:
-        shutil.rmtree(host, ignore_errors=True)
+        shutil.rmtree(top, ignore_errors=True)
     clock = SimClock("fine", 1)
     fs = SimFS(clock)
 
@@ -200,11 +246,11 @@ def one(seed, length):
             return None
 
     fs.hook = Tick()
-    fs.h_mkdirs("/SIMFS/t")
+    fs.h_mkdirs("/SIMFS/t/p/q")
     interpose.bind(fs, None, clock)
     try:
-        t_sim = run_program("/SIMFS/t", prog)
-        tree_sim = tree("/SIMFS/t")
+        t_sim = run_program("/SIMFS/t/p/q", prog)
+        tree_sim = tree("/SIMFS/t/p/q")
     finally:
         interpose.unbind()
     diffs = []
